@@ -115,6 +115,7 @@ func runC08(c *Check, a *Analysis) {
 	sc := siteCounter{}
 	// a stream context that is recycled while the stream table still points at it is dereferenced at teardown
 	ruleStreamCtxStable(c, a, "R-STREAM-CTX-STABLE")
+	ruleFixedPoolSizes(c, a, "R-FIXED-POOL-SIZE")
 
 	// ---- R-PANIC-BYTES
 	c.Rule("R-PANIC-BYTES", "every function that passes the raw frame bytes (Context.data) to a decoder has a dominating deferred recover() barrier that sets its error result", 2)
